@@ -1,0 +1,88 @@
+//! Verification hooks (cargo feature `verif`, off by default).
+//!
+//! Nothing in this module changes library behaviour unless a harness installs
+//! a scheduler callback or a thread-local entropy seed.
+#![allow(missing_docs)]
+
+use std::cell::Cell;
+use std::sync::atomic::{AtomicBool, Ordering};
+use std::sync::{Arc, RwLock};
+
+
+type YieldCallback = Arc<dyn Fn(&'static str) + Send + Sync>;
+
+static YIELD_INSTALLED: AtomicBool = AtomicBool::new(false);
+static YIELD_CALLBACK: RwLock<Option<YieldCallback>> = RwLock::new(None);
+
+/// Install (or remove) the callback invoked at every yield point.
+pub fn set_yield_callback(callback: Option<YieldCallback>) {
+    let mut guard = YIELD_CALLBACK.write().unwrap();
+    YIELD_INSTALLED.store(callback.is_some(), Ordering::SeqCst);
+    *guard = callback;
+}
+
+/// Called by the library at synchronization-relevant points where no lock is held.
+#[inline]
+pub fn yield_point(site: &'static str) {
+    if !YIELD_INSTALLED.load(Ordering::SeqCst) {
+        return;
+    }
+    let callback = YIELD_CALLBACK.read().unwrap().clone();
+    if let Some(callback) = callback {
+        callback(site);
+    }
+}
+
+thread_local! {
+    static ENTROPY: Cell<Option<(u64, u64)>> = const { Cell::new(None) };
+}
+
+/// Make every generator the library creates on this thread derive from
+/// `seed` (each draw is still distinct). `None` restores OS entropy.
+pub fn set_thread_entropy(seed: Option<u64>) {
+    ENTROPY.with(|e| e.set(seed.map(|s| (s, 0))));
+}
+
+/// Number of generator seeds drawn on this thread since the last `set_thread_entropy`.
+pub fn thread_entropy_draws() -> u64 {
+    ENTROPY.with(|e| e.get().map(|x| x.1).unwrap_or(0))
+}
+
+pub(crate) fn next_entropy() -> Option<[u8; 64]> {
+    ENTROPY.with(|e| {
+        let (seed, counter) = e.get()?;
+        e.set(Some((seed, counter + 1)));
+        let mut hasher = blake3::Hasher::new();
+        hasher.update(b"heathcliff-verif-entropy");
+        hasher.update(&seed.to_le_bytes());
+        hasher.update(&counter.to_le_bytes());
+        let mut out = [0u8; 64];
+        hasher.finalize_xof().fill(&mut out);
+        Some(out)
+    })
+}
+
+/// Thin public wrappers around the crate-private `util::polysmallmod` routines.
+pub mod polysmallmod {
+    use crate::util::polysmallmod as inner;
+    use crate::util::NTTTables;
+    use crate::Modulus;
+
+    pub fn add(a: &[u64], b: &[u64], modulus: &Modulus, result: &mut [u64]) { inner::add(a, b, modulus, result) }
+    pub fn sub(a: &[u64], b: &[u64], modulus: &Modulus, result: &mut [u64]) { inner::sub(a, b, modulus, result) }
+    pub fn negate(a: &[u64], modulus: &Modulus, result: &mut [u64]) { inner::negate(a, modulus, result) }
+    pub fn multiply_scalar(a: &[u64], scalar: u64, modulus: &Modulus, result: &mut [u64]) { inner::multiply_scalar(a, scalar, modulus, result) }
+    pub fn dyadic_product(a: &[u64], b: &[u64], modulus: &Modulus, result: &mut [u64]) { inner::dyadic_product(a, b, modulus, result) }
+    pub fn dyadic_product_inplace(a: &mut [u64], b: &[u64], modulus: &Modulus) { inner::dyadic_product_inplace(a, b, modulus) }
+    pub fn dyadic_product_p(a: &[u64], b: &[u64], degree: usize, moduli: &[Modulus], result: &mut [u64]) { inner::dyadic_product_p(a, b, degree, moduli, result) }
+    pub fn negacyclic_shift(a: &[u64], shift: usize, modulus: &Modulus, result: &mut [u64]) { inner::negacyclic_shift(a, shift, modulus, result) }
+    pub fn negacyclic_multiply_mononomial(a: &[u64], mono_coeff: u64, mono_exponent: usize, modulus: &Modulus, result: &mut [u64]) {
+        inner::negacyclic_multiply_mononomial(a, mono_coeff, mono_exponent, modulus, result)
+    }
+    pub fn ntt(a: &mut [u64], tables: &NTTTables) { inner::ntt(a, tables) }
+    pub fn intt(a: &mut [u64], tables: &NTTTables) { inner::intt(a, tables) }
+    pub fn ntt_lazy(a: &mut [u64], tables: &NTTTables) { inner::ntt_lazy(a, tables) }
+    pub fn intt_lazy(a: &mut [u64], tables: &NTTTables) { inner::intt_lazy(a, tables) }
+    pub fn ntt_p(a: &mut [u64], degree: usize, tables: &[NTTTables]) { inner::ntt_p(a, degree, tables) }
+    pub fn intt_p(a: &mut [u64], degree: usize, tables: &[NTTTables]) { inner::intt_p(a, degree, tables) }
+}
